@@ -60,6 +60,12 @@ class BackendAdapter:
             elif a == "end":
                 cm = self.cm.pop(c)
                 cm.__exit__(None, None, None)
+            elif a == "endexc":
+                # an exception of the caller's own code leaves the `with` block
+                cm = self.cm.pop(c)
+                exc = RuntimeError("caller's exception")
+                if cm.__exit__(RuntimeError, exc, None):
+                    return {"out": "exception swallowed"}
             elif a == "cflush":
                 self.c[c].flush()
             elif a == "cput":
